@@ -1,4 +1,5 @@
 import Spq.VecZnx
+import Spq.F64
 import Spq.Drv.Util
 /-
   driver family `vz`:
@@ -62,6 +63,25 @@ def handleKz (args : List String) : Option String :=
     | "norm" =>  -- c2 empty = no carry in;  answer: out | cout
       let r := Coeffs.znxNormalize nn k x (if c2.isEmpty then none else some y)
       some (joinInts r.1 ++ " | " ++ joinInts r.2)
+    | _ => none
+  | _ => none
+
+/-- family `kf`: the double-precision (rnx_*) kernels on binary64 bit patterns:  kf <op> nn p | in… [| res0…] -/
+def handleKf (args : List String) : Option String :=
+  let (hd, rest) := splitBar args
+  let (c1, c2) := splitBar rest
+  match hd with
+  | [op, nn, p] =>
+    let nn := parseNat nn; let p := parseInt p
+    let x := nats c1; let y := nats c2
+    let o := F64.ops
+    match op with
+    | "rotate" => some (joinNats (Coeffs.rotate o nn p x))
+    | "rotate_inplace" => some (joinNats (Coeffs.rotateInplace o nn p x))
+    | "mulxp" => some (joinNats (Coeffs.mulXpMinusOne o nn p x))
+    | "mulxp_inplace" => some (joinNats (Coeffs.mulXpMinusOneInplace o nn p x))
+    | "autom" => some (joinNats (Coeffs.automorphism o nn p x y))
+    | "autom_inplace" => some (joinNats (Coeffs.automorphismInplace o nn p x))
     | _ => none
   | _ => none
 
